@@ -813,6 +813,11 @@ theorem step_inv (ts : TS) (ev : TEv) (hi : TInv ts) (hok : EvOk ts ev) : TInv (
     split
     · exact (fire_inv _ { ts with now := now' } hi hok).1
     · exact hi
+  | tickN now' k =>
+    simp only [step]
+    split
+    · exact (fire_inv _ { ts with now := now' } hi hok).1
+    · exact hi
   | ack s mid =>
     simp only [step]
     rcases hr : premove ts.pend s mid with ⟨_ | m, r⟩
@@ -935,6 +940,11 @@ theorem step_conserve (s mid : Nat) (ts : TS) (ev : TEv) :
     split
     · rw [fire_conserve]; simp
     · simp
+  | tickN now' k =>
+    simp only [step, sendW]
+    split
+    · rw [fire_conserve]; simp
+    · simp
   | ack s' m' =>
     have := pc_premove s mid s' m' ts.pend
     simp only [step, sendW]
@@ -1019,6 +1029,11 @@ theorem step_tx_pending (ts : TS) (ev : TEv) (hns : ∀ s mid T mx, ev ≠ .send
   cases ev with
   | send s mid T mx => exact absurd rfl (hns s mid T mx)
   | tick now' =>
+    simp only [step]
+    split
+    · exact fire_tx_pending _ { ts with now := now' }
+    · exact ⟨[], rfl, by simp⟩
+  | tickN now' k =>
     simp only [step]
     split
     · exact fire_tx_pending _ { ts with now := now' }
@@ -1174,6 +1189,29 @@ theorem fire_complete (fuel : Nat) (ts : TS) (hg : Good ts) (hf : dc ts.now ts.p
         · show now < d; omega
         · have : d ≤ p.1 := hs.1 p hp; omega
 
+/-- firing any number of due entries keeps the pending list ordered with positive timeouts -/
+theorem fire_good (fuel : Nat) (ts : TS) (hg : Good ts) : Good (fire fuel ts) := by
+  induction fuel generalizing ts with
+  | zero => exact hg
+  | succ f ih =>
+    rcases ts with ⟨now, pend, outs⟩
+    rcases pend with _ | ⟨⟨d, m⟩, r⟩
+    · exact hg
+    · simp only [fire]
+      have hs : SortedP r := (List.pairwise_cons.mp hg.1).2
+      have hr : ∀ p ∈ r, 0 < p.2.T := fun p hp => hg.2 p (List.mem_cons_of_mem _ hp)
+      have hm : 0 < m.T := hg.2 (d, m) (by simp)
+      split
+      · split
+        · apply ih
+          refine ⟨pinsert_sorted _ hs, ?_⟩
+          intro p hp
+          rcases mem_pinsert.1 hp with rfl | hp
+          · exact hm
+          · exact hr p hp
+        · exact ih _ ⟨hs, hr⟩
+      · exact hg
+
 theorem step_good (ts : TS) (ev : TEv) (hg : Good ts) (hp : SendPos ev) : Good (step ts ev) := by
   cases ev with
   | send s mid T mx =>
@@ -1188,6 +1226,11 @@ theorem step_good (ts : TS) (ev : TEv) (hg : Good ts) (hp : SendPos ev) : Good (
     split
     · exact (fire_complete _ { ts with now := now' } hg
         (Nat.le_trans (dc_le_length _ _) (length_le_tickFuel ts))).1
+    · exact hg
+  | tickN now' k =>
+    simp only [step]
+    split
+    · exact fire_good _ { ts with now := now' } hg
     · exact hg
   | ack s mid =>
     have h1 := premove_sorted s mid hg.1
